@@ -419,6 +419,7 @@ func c19Errors(p *load.Prog, r *oblig.Run, g *cg.Graph) {
 	c19FileNames(p, r)
 	c19Truncate(p, r)
 	c19FreshMaps(p, r)
+	c19WriterError(p, r)
 	r.Rule("R19.f", "a failing file writer is reported: write errors on the publish path are propagated, stored into the returned error, or panicked with - never dropped; the worker loop ends on the first error", 4)
 	var roots []cg.Target
 	for _, n := range []string{"Publish"} {
